@@ -38,6 +38,7 @@ func init() {
 	ruleText["R04.8"] = "in no run-time closure is a frame slot (frame.data[i], directly or through a local alias of the vector) assigned the plain result v(f) of a value generator; frozen exception: the result slots of an interpreted call (call: rvalues)"
 	ruleText["R04.9"] = "in every generator, a statement replacing the node's own frame slot (data[i] = v, i captured from n.findex) by a value produced in place (reflect.New(T).Elem(), a received value) is unreachable, on the flow graph of its function literal pruned under n.anc.kind == assignStmt and CanSet(), i.e. the value is Set into the destination when the parent is an assignment"
 	ruleText["R04.10"] = "every reflect.Value.Set of a result in the closures of _append and appendSlice has an argument built by reflect.Append or reflect.AppendSlice (the operand itself only for append(s) without appended values)"
+	ruleText["R04.12"] = "same analysis as C01/R01.20 (a slice, map or channel value is created at each evaluation of its expression, never once per generated closure)"
 	ruleText["R04.11"] = "same analysis as C01/R01.14 (the assign operation is skipped by cfg for single assignments only)"
 	ruleText["R04.7"] = "same analysis as C01/R01.8 (result stored on every path of the run-time closure)"
 }
@@ -74,6 +75,11 @@ func runC04(c *Config, r *Report) {
 	c04R9(ic, r)
 	c04R10(ic, r)
 	c01R14(ic, r, "R04.11")
+	{
+		sub := newReport("C01")
+		c01R20(ic, sub)
+		relabel(r, sub, "R04.12")
+	}
 }
 
 // c04R5: the range shadow copy.
